@@ -16,6 +16,7 @@ pub fn dispatch(cmd: &str, c: &Value) -> Value {
         "open_prefix" => open_prefix(c),
         "archive_fault" => archive_fault(c),
         "fasta_parse" => fasta_parse(c),
+        "refseg_roundtrip" => refseg_roundtrip(c),
         "splitters" => splitters(c),
         "reader_history" => reader_history(c),
         "lz_estimate" => lz_estimate(c),
@@ -746,4 +747,14 @@ pub fn splitters(c: &Value) -> Value {
     let mut cv: Vec<u64> = cand.into_iter().collect(); cv.sort();
     let mut dv: Vec<u64> = dup.into_iter().collect(); dv.sort();
     json!({ "splitters": sv, "singletons": cv, "duplicates": dv, "ok": ok })
+}
+
+pub fn refseg_roundtrip(c: &Value) -> Value {
+    use ragc_core::segment_compression::{compress_reference_segment, compress_segment_configured, decompress_segment_with_marker};
+    let d = bytes(&c["d"]);
+    let (comp, marker) = compress_reference_segment(&d).unwrap();
+    let back = decompress_segment_with_marker(&comp, marker).unwrap();
+    let c2 = compress_segment_configured(&d, 17).unwrap();
+    let b2 = decompress_segment_with_marker(&c2, 0).unwrap();
+    json!({ "marker": marker, "ok": back == d && (d.is_empty() || b2 == d) && marker <= 1 })
 }
